@@ -23,3 +23,13 @@ def need_both_answers(rep):
     rep.witnesses.update(paths_answering_true=t, paths_answering_false=f, paths_refusing=r)
     if t == 0 or f == 0:
         rep.inconclusive.append("vacuity: no path answered %s" % ("True" if t == 0 else "False"))
+
+
+def lookalike_history(rep, system, pm, weakly=False):
+    """Two different queries whose formulas print identically (pysmt truncates str() of deep
+    formulas) asked of one manager: each must still get its own answer."""
+    from .. import hist
+    sh = {("QA", 0): "deep6", ("QA", 1): "deep6", ("QB", 1): "same_as_0"}
+    h = hist.HistHarness(system, pm, weakly, 2, 1, 2, [[(1, 0, "q0")], [(1, 1, "q1"), (2, 0, "q0")]], shapes=sh,
+                         label="history[look-alike deep formulas] %s/%s %s N=2 M=1" % (system, pm or "-", "ext" if weakly else "strict"))
+    drive.run_op(rep, h)
